@@ -22,9 +22,9 @@ PROPS["C09"] = dict(
 PROPS["C18"] = dict(
     pkg="c18", level="exploration", exhaustive_core=True,
     technique="bounded-exhaustive enumeration + rapid random strings against a regular-expression oracle and a model registry",
-    level_text="Exploration: the accepted set is compared with the documented language (regexp + length bounds) on every string up to length 5 (quick) / 7 (thorough) over a 10-symbol boundary alphabet and on every segment-length composition at total lengths 2..38, where validity can only depend on length and segment structure; the registry is compared with a model set after each block.",
+    level_text="Exploration: the accepted set is compared with the documented language (regexp + length bounds) on every string up to length 5 (quick) / 8 (thorough) over a 10-symbol boundary alphabet and on every segment-length composition at total lengths 2..38, where validity can only depend on length and segment structure; the registry is compared with a model set after each block.",
     level_note="Trusted: Go's regexp package and the harness's model set. Assumes validity depends only on length, alphabet class and underscore structure (random byte/unicode strings probe the rest).",
-    rule="strings enumerated over {a z 0 9 _ A - space { `} up to length 5/7, all compositions of 1..38 characters into 1..5 segments with leading/trailing/doubled underscore variants, rapid random byte/unicode/near-language strings and helper-built names; non-trivial = accepted, or rejected although drawn from the right alphabet",
+    rule="strings enumerated over {a z 0 9 _ A - space { `} up to length 5/8, all compositions of 1..38 characters into 1..5 segments with leading/trailing/doubled underscore variants, rapid random byte/unicode/near-language strings and helper-built names; non-trivial = accepted, or rejected although drawn from the right alphabet",
     steps=[
         dict(test="^TestC18_(Replay|ExhaustiveAlphabet|Compositions)$", quick=dict(timeout=600), thorough=dict(shards=5, timeout=1800)),
         dict(test="^TestC18_Random$", quick=dict(checks=3000, timeout=600), thorough=dict(checks=40000, shards=8, timeout=1800)),
@@ -75,7 +75,7 @@ PROPS["C01"] = dict(
     level_note="Trusted: the harness's range parser/chaining model (written from the property text) and recording appender. An explicit ~MAX upper bound is generated only where it cannot be told apart from an open end (documented sentinel).",
     rule="generated configurations x all entry points x generated levels; exhaustive two-reference sweep",
     steps=[
-        dict(test="^Test(Regress_C01|C01_Generated)$", quick=dict(checks=3000, timeout=900), thorough=dict(checks=8000, shards=12, timeout=3000)),
+        dict(test="^Test(Regress_C01|C01_Generated)$", quick=dict(checks=3000, timeout=900), thorough=dict(checks=40000, shards=12, timeout=3000)),
         dict(test="^TestC01_Sweep$", quick=dict(timeout=900), thorough=dict(shards=4, timeout=1800)),
     ],
 )
@@ -147,8 +147,8 @@ PROPS["C05"] = dict(
     level_note="Liveness is judged as 'returned within 30 s + drain time once nothing is held back'. Trusted: /proc/self/fd as the descriptor oracle, the harness gate. Real-time runs assume the wall clock does not step.",
     rule="generated stop scenarios; real-time rolling runs",
     steps=[
-        dict(test="^Test(Regress_C05|C05_AsyncStop)$", quick=dict(checks=150, timeout=900), thorough=dict(checks=800, shards=8, timeout=3000)),
-        dict(test="^TestC05_Kinds$", quick=dict(checks=150, timeout=900), thorough=dict(checks=800, shards=8, timeout=3000)),
+        dict(test="^Test(Regress_C05|C05_AsyncStop)$", quick=dict(checks=150, timeout=900), thorough=dict(checks=3000, shards=8, timeout=3000)),
+        dict(test="^TestC05_Kinds$", quick=dict(checks=150, timeout=900), thorough=dict(checks=3000, shards=8, timeout=3000)),
         dict(test="^TestC05_RollingDescriptors$", quick=dict(timeout=900), thorough=dict(shards=4, timeout=3000)),
     ],
 )
@@ -160,7 +160,7 @@ PROPS["C10"] = dict(
     level_note="Trusted: the harness's level-range model and recording appender. Wall-clock timestamps (hook unset) are accepted within the call window +-1 ms.",
     rule="generated action sequences",
     steps=[
-        dict(test="^TestC10_Hooks$", quick=dict(checks=1500, timeout=900), thorough=dict(checks=10000, shards=12, timeout=3000)),
+        dict(test="^TestC10_Hooks$", quick=dict(checks=1500, timeout=900), thorough=dict(checks=40000, shards=12, timeout=3000)),
         dict(test="^TestC10_Concurrent$", quick=dict(timeout=900), thorough=dict(shards=4, timeout=3000)),
     ],
 )
@@ -168,11 +168,11 @@ PROPS["C10"] = dict(
 PROPS["C16"] = dict(
     pkg="c16", level="exploration",
     technique="rapid state-machine sequences plus bounded-exhaustive short sequences over the lifecycle API against a three-state model (unconfigured / live / failed-live)",
-    level_text="Exploration over histories: generated sequences (length <= 8, tail to 16) and every sequence up to length 3 (quick) / 4 (thorough) over Refresh(valid A/B, invalid early/late), Destroy, tag logging, handle writes, RegisterTag and GetLogger; after each step the model's expectation is checked (no panic, no block within 10 s, console vs configured appender routing, refusal of registration and of a second Refresh while live, Destroy idempotent), and every history ends with Destroy + Refresh(valid) that must route as configured.",
+    level_text="Exploration over histories: generated sequences (length <= 8, tail to 16) and every sequence up to length 3 (quick) / 5 (thorough) over Refresh(valid A/B, invalid early/late), Destroy, tag logging, handle writes, RegisterTag and GetLogger; after each step the model's expectation is checked (no panic, no block within 10 s, console vs configured appender routing, refusal of registration and of a second Refresh while live, Destroy idempotent), and every history ends with Destroy + Refresh(valid) that must route as configured.",
     level_note="In the failed-live state (a Refresh that failed after it had begun to apply) only 'no panic, no block' is demanded of logging; Refresh/registration outcomes there are not judged because the property does not define them. Trusted: the model and recording appenders.",
     rule="generated and enumerated operation sequences",
     steps=[
-        dict(test="^Test(Regress_C16|C16_Generated)$", quick=dict(checks=600, timeout=900), thorough=dict(checks=5000, shards=12, timeout=3000)),
+        dict(test="^Test(Regress_C16|C16_Generated)$", quick=dict(checks=600, timeout=900), thorough=dict(checks=30000, shards=12, timeout=3000)),
         dict(test="^TestC16_Exhaustive$", quick=dict(timeout=900), thorough=dict(shards=8, timeout=3000)),
     ],
 )
@@ -185,7 +185,7 @@ PROPS["C11"] = dict(
     level_note="Trusted: runtime.Caller as the position oracle. The family of generated programs is finite (no cgo, assembly or multi-line call expressions).",
     rule="generated programs x mode sequences",
     steps=[
-        dict(test="^Test(Regress_C11|C11_Sites)$", quick=dict(checks=150, timeout=900), thorough=dict(checks=1500, shards=8, timeout=3000)),
+        dict(test="^Test(Regress_C11|C11_Sites)$", quick=dict(checks=150, timeout=900), thorough=dict(checks=6000, shards=8, timeout=3000)),
         dict(test="^TestC11_Concurrent$", quick=dict(timeout=900), thorough=dict(timeout=3000)),
     ],
 )
@@ -197,7 +197,7 @@ PROPS["C14"] = dict(
     level_note="Uses the verif hook VerifClearExpiredFiles (add-only, build tag verif). Modification times are set with os.Chtimes; entries within one minute of the cut-off may go either way.",
     rule="generated populations; real rotations",
     steps=[
-        dict(test="^Test(Regress_C14|C14_Populations)$", quick=dict(checks=600, timeout=900), thorough=dict(checks=5000, shards=8, timeout=3000)),
+        dict(test="^Test(Regress_C14|C14_Populations)$", quick=dict(checks=600, timeout=900), thorough=dict(checks=20000, shards=8, timeout=3000)),
         dict(test="^TestC14_RealRotation$", quick=dict(timeout=900), thorough=dict(shards=2, timeout=3000)),
     ],
 )
@@ -209,7 +209,7 @@ PROPS["C13"] = dict(
     level_note="Interleavings and boundary hits are sampled; a writer cannot be frozen between loading the file pointer and writing. Timestamps are compared with a 5 ms margin; assumes the wall clock does not step.",
     rule="generated real-time time-lines, 8 per case in parallel",
     steps=[
-        dict(test="^TestC13_Timelines$", quick=dict(checks=3, timeout=900, shrink="1s"), thorough=dict(checks=6, shards=8, timeout=3000, shrink="1s")),
+        dict(test="^TestC13_Timelines$", quick=dict(checks=3, timeout=900, shrink="1s"), thorough=dict(checks=10, shards=8, timeout=3000, shrink="1s")),
         dict(test="^TestC13_StalledWriter$", quick=dict(timeout=300), thorough=dict(timeout=600)),
     ],
 )
@@ -221,7 +221,7 @@ PROPS["C19"] = dict(
     level_note="Fault placements are generated, not exhaustively enumerated (the space is continuous in time). Outage by rename(2); assumes the wall clock does not step. The retry clause is judged for single-writer time-lines only (with several writers the rotating goroutine's brief window is legitimate).",
     rule="generated fault time-lines, 6 per case in parallel; static fault x path cases",
     steps=[
-        dict(test="^TestC19_Outage$", quick=dict(checks=3, timeout=900, shrink="1s"), thorough=dict(checks=6, shards=8, timeout=3000, shrink="1s")),
+        dict(test="^TestC19_Outage$", quick=dict(checks=3, timeout=900, shrink="1s"), thorough=dict(checks=12, shards=8, timeout=3000, shrink="1s")),
         dict(test="^TestC19_Static$", quick=dict(checks=300, timeout=900), thorough=dict(checks=3000, shards=4, timeout=3000)),
     ],
 )
@@ -233,7 +233,7 @@ PROPS["C20"] = dict(
     level_note="Crash points are sampled from 1..G*N, not all enumerated. Process-crash write-through only (no fsync / power-loss claim). Trusted: the acknowledgement pipe (one direct write(2) per returned call).",
     rule="generated crash points, 8 children per case",
     steps=[
-        dict(test="^TestC20_CrashPoints$", quick=dict(checks=40, timeout=900, shrink="5s"), thorough=dict(checks=50, shards=8, timeout=3000, shrink="5s")),
+        dict(test="^TestC20_CrashPoints$", quick=dict(checks=40, timeout=900, shrink="5s"), thorough=dict(checks=250, shards=8, timeout=3000, shrink="5s")),
     ],
 )
 
